@@ -117,6 +117,8 @@ class C09(Check):
 
                     if kind == "polars" and _noopt_agrees(b.vars[sel["out"]], lambda d: oracle.compare_ref(exp, d, view=view)):
                         out.count("engine_quirk:polars_optimizer")
+                    elif kind == "polars" and run.prefix_quirk:
+                        out.count("engine_quirk:prefix:" + run.prefix_quirk)  # the table itself is a victim of an engine bug
                     else:
                         out.fail("mismatch", f"{kind}:probe:{mm.kind}", f"{kind}: probe columns differ from the referenced data: {mm}")
                 except BaseException as ex:  # noqa: BLE001
